@@ -422,9 +422,9 @@ def conditions(tier, seed):
     out.append({'name': 'truthiness', 'func': 'truthiness', 'timeout': 60, 'bounds': 'a scalar, str len<=2'})
     out.append({'name': 'int_division', 'func': 'int_division', 'timeout': 60, 'bounds': 'a,b unbounded ints, b != 0'})
     for part in ('int', 'nonnum'):
-        out.append({'name': 'law_antisym[%s]' % part, 'func': 'law_antisym', 'timeout': t, 'param': {'part': part},
+        out.append({'name': 'law_antisym[%s]' % part, 'func': 'law_antisym', 'timeout': 3 * t, 'param': {'part': part},
                     'bounds': 'a,b scalar, part=%s' % part})
-        out.append({'name': 'law_trichotomy[%s]' % part, 'func': 'law_trichotomy', 'timeout': t, 'param': {'part': part},
+        out.append({'name': 'law_trichotomy[%s]' % part, 'func': 'law_trichotomy', 'timeout': 3 * t, 'param': {'part': part},
                     'bounds': 'a,b scalar, part=%s, NaN excluded' % part})
     out.append({'name': 'law_null_lowest', 'func': 'law_null_lowest', 'timeout': 60, 'bounds': 'a scalar non-null'})
     for op in ['+', '-', '*', '/', 'mod', '<', '<=', '>', '>=']:
